@@ -121,6 +121,11 @@ func (b *Writer) Write(p []byte) (nn int, err error) {
 		} else {
 			n = copy(b.buf[b.n:], p)
 			b.n += n
+			if len(b.buf) == 0 {
+				// a block aligned writer needs a buffer to collect its blocks in, without one it can make no progress
+				b.err = io.ErrShortBuffer
+				return nn, b.err
+			}
 			err := b.Flush()
 			if err != nil {
 				return 0, err
